@@ -94,7 +94,7 @@ pub fn run() -> i32 {
     quiet_panics();
     let mut ctx = Ctx::new("C16", "exploration");
     let seed = ctx.seed;
-    let maxlen = ctx.tier.pick(80usize, 300);
+    let maxlen = ctx.tier.pick(300usize, 1100);
     ctx.rule = format!("full products: message-bearing objects (DryocSecretBox, DryocBox plain/sealed, SignedMessage) x every payload length 0..={} x containers (stack+Vec{}) x codecs (to_bytes/from_bytes, to_vec, into_vec, into_parts/from_parts, JSON, bincode): decoded == original, still decrypts/verifies, to_bytes == libsodium's combined layout; key objects (KeyPair, SigningKeyPair, kx::Session, Kdf, PwHash+Config, from_slices) x value alphabet x JSON/bincode; wrong-length family: every fixed-length container type x element counts 0..=2N x 5 decoders (JSON array, bincode bytes, serde BytesDeserializer, SeqDeserializer with exact and with absent size hint) and TryFrom<&[u8]>: count != N must be refused, never padded/truncated, never panic; non-trivial = cell executed", maxlen, if cfg!(feature = "nightly") { ", HeapBytes/HeapByteArray/Locked" } else { "" });
     ctx.assume("Vec<u8> used as a 'fixed-length' field type cannot enforce a length at decode time (it is not a fixed-length type); recorded as an observation, not alarmed");
 
